@@ -22,6 +22,10 @@ NAMES = ["a", "a1", "a10", "ab", "b", "b1", "svc", "svc1", "svc-x"]
 XA = "user.oomd_ruleset_on"
 
 
+# the filter asks for the attribute's presence: an empty value, "0" or any text still carries it
+XVALS = ["1", "1", "", "0", "yes"]
+
+
 def cases(seed, tier):
     n = 1000 if tier == "quick" else 6000
     rng = random.Random(seed * 1000003 + 11)
@@ -47,7 +51,7 @@ def cases(seed, tier):
             if rng.random() < 0.5:
                 cg[u] = W.cgroup()
                 if use_x and rng.random() < 0.7:
-                    cg[u]["xattrs"] = {XA: "1"}
+                    cg[u]["xattrs"] = {XA: rng.choice(XVALS)}
                 present.add(u)
         ticks = []
         for t in range(nticks):
@@ -58,7 +62,7 @@ def cases(seed, tier):
                     if u in present:
                         r = rng.random()
                         if use_x and r < 0.3:
-                            ops.append({"op": "xattr", "cg": u, "name": XA, "val": rng.choice([None, "1"])})
+                            ops.append({"op": "xattr", "cg": u, "name": XA, "val": rng.choice([None, "1", ""])})
                         elif r < 0.8:
                             ops.append({"op": "rm", "cg": u})
                             present.discard(u)
@@ -66,12 +70,12 @@ def cases(seed, tier):
                             ops.append({"op": "rm", "cg": u})
                             spec = W.cgroup()
                             if use_x and rng.random() < 0.7:
-                                spec["xattrs"] = {XA: "1"}
+                                spec["xattrs"] = {XA: rng.choice(XVALS)}
                             ops.append(dict(op="mk", cg=u, **spec))
                     else:
                         spec = W.cgroup()
                         if use_x and rng.random() < 0.7:
-                            spec["xattrs"] = {XA: "1"}
+                            spec["xattrs"] = {XA: rng.choice(XVALS)}
                         ops.append(dict(op="mk", cg=u, **spec))
                         present.add(u)
             ticks.append({"step_ns": rng.choice([0, 1, 1, 2, 5]) * 10**9, "ops": ops})
